@@ -66,6 +66,14 @@ CLAIMED = {
          'The real REST TimeoutHandler/timeoutWriter, zRPC UnaryTimeoutInterceptor (server), TimeoutInterceptor (client), fx.DoWithTimeout and engine.checkedTimeout executed with the context package from source under the engine scheduler: wrapper, work goroutine, deadline timer and caller cancellation as environment events; the work writes headers/status/body chunks with symbolic contents, yields, then returns, panics or blocks forever. Asserted: deadline no later than caller deadline and now+chosen timeout; the wrapper never waits for work that ignores the deadline (deadlock detection); the client sees exactly the work\'s complete result or exactly the timeout result (503/499, DeadlineExceeded/Canceled), never a mixture, and nothing written later reaches the client; panics re-raised; websocket/SSE exempt; per-method/per-route/per-call timeout selection.',
          'go/ssa translation, gosym scheduler; schedules are explored exhaustively up to 1 preemption (CHESS-style bound; switches at blocking points are free), because the context package alone contributes ~100 scheduling points; durations concrete (1 s default, 0.25-3 s alternatives) since time.Time arithmetic stays concrete; 1 (quick) / 2 (thorough) work operations; Flush/Hijack/Push of the timeout writer are outside.',
          'SSA interpretation under a preemption-bounded exhaustive scheduler (bounded schedule exploration); solver for symbolic response data and timeout selection arithmetic'),
+ 'C10': ('DESIGN.md §4 C10',
+         'The real MapReduce/MapReduceVoid (buildSource, executeMappers, mapReduceWithPanicChan, guardedWriter, onceChan, once/finish/cancel) with generator, dispatcher, mapper workers, reducer and caller as goroutines under the engine scheduler; item values are solver variables and the reducer computes a weighted sum that changes for every value when an item is lost or duplicated. Without faults: every item mapped exactly once, every written value reduced exactly once, exact result / ErrReduceNoOutput / nil for Void, mapper gauge <= workers, no goroutine left. With one fault (panic of generator/mapper/reducer at invocation j, cancel(err)/cancel(nil) by mapper/reducer, context ended at an arbitrary scheduling point, mapper that ignores the context and stalls): the call returns without deadlock exactly the cancel error / ErrCancelWithNil / a context error or re-raises exactly the user panic, a nil error implies complete work, and once the user functions have returned no goroutine remains.',
+         'go/ssa translation, gosym scheduler. ALL interleavings at synchronisation points (sleep-set reduced) for (items, workers) in {0,1,2}x{1}, {0,1}x{2} without faults and 1x1 (thorough: 1x2, 2x1) with one fault; wider configurations (2-3 items x 2 workers, context end) under a CHESS-style preemption bound of 1 (quick) / 2 (thorough). The data (item values) is the only solver-decided part; the rest is bounded systematic schedule exploration of the real code. The caller context is a minimal context.Context implementation (Done channel + Err). Two genuine defects of the same root (finish() closes the output channel under a reducer that is inside writer.Write) are listed as known findings; ForEach/Finish/FinishVoid/MapReduceChan are covered by a smaller harness; two simultaneous faults are outside.',
+         'SSA interpretation under an exhaustive scheduler with sleep sets / preemption bound (bounded schedule exploration of the real code); solver (z3) for the symbolic item values'),
+ 'C11': ('DESIGN.md §4 C11',
+         'The real PeriodicalExecutor (Add/addAndCheck/backgroundFlush/Flush/Wait/executeTasks/hasTasks/shallQuit/enterExecution) over the real bulkContainer and chunkContainer, with the caller (Adds, optional Flush, Wait), a concurrent producer, the background flusher and a clock/ticker environment goroutine under the engine scheduler; the virtual clock advances by one interval or by more than idleRound intervals per tick, so the flusher quitting and being restarted by a later Add is explored; optionally one task makes the callback panic. Asserted: no task reaches the callback twice; never an empty batch; when Wait returns every task the caller added before it has been executed (callback returned); after a final Wait every accepted task was executed exactly once; a panicking callback loses exactly its own batch.',
+         'go/ssa translation, gosym scheduler with a CHESS-style preemption bound: all schedules with at most 1 preemption (a thorough-only entry uses 2 on the smallest configuration); threshold 1..2, 2 own + 1 concurrent task and 0..1 ticks in quick (0..2 own, 1..2 concurrent, 0..2 ticks in thorough); reflect.ValueOf/Kind/Len modelled natively; newTicker replaced by a harness ticker with a buffer of 1 (ticks dropped when full, like time.Ticker); a spy container forwards to the real one and records who removed each task. The data is concrete, so this is bounded systematic schedule exploration of the real code. One genuine defect is a known finding (Wait misses a batch that a concurrent producer has taken out of the container but not yet handed over); sqlx.BulkInserter is not covered.',
+         'SSA interpretation under a preemption-bounded exhaustive scheduler (bounded schedule exploration of the real code)'),
 }
 
 NA = {
